@@ -287,10 +287,13 @@ def build_ws(ws, prop, batches):
     """Builds the batch workspace. If some batch crates do not compile (possible only when the tree under test changed the
     macro or the library), the programs with error diagnostics are returned as compile failures, the failing batches are
     dropped from the runner and the rest is built and run."""
-    pr = sh(["cargo", "build", "-q"], cwd=ws, check=False)
+    # large workspaces (thorough tiers) are built with fewer parallel jobs: a compiler process of one of their crates can
+    # take 8-12 GB, sixteen of them at once do not fit into the machine's memory
+    jobs = ["-j", "6"] if (batches if isinstance(batches, int) else len(batches)) > 24 else []
+    pr = sh(["cargo", "build", "-q"] + jobs, cwd=ws, check=False)
     if pr.returncode == 0:
         return []
-    pr = sh(["cargo", "build", "-q", "--keep-going"], cwd=ws, check=False)
+    pr = sh(["cargo", "build", "-q", "--keep-going"] + jobs, cwd=ws, check=False)
     if "SIGKILL" in pr.stdout or "signal: 9" in pr.stdout:
         # a compiler process was killed (out of memory while many large crates were compiled at once): not a property
         # of the generated code. Retries with few parallel jobs, then the usual attribution.
